@@ -2647,6 +2647,21 @@ hsStateDetermined:
         if ((uint32) (end - c) < hsLen)
         {
 #endif
+#ifdef USE_DTLS
+            if (ACTV_VER(ssl, v_dtls_any))
+            {
+                /* DTLS fragments announce themselves in the handshake
+                   header (handled above).  A message whose fragment_length
+                   equals its length but which is not completely present is
+                   malformed: it must not enter the TLS reassembly below,
+                   which shares ssl->fragMessage / fragTotal with the DTLS
+                   reassembly but not its size bookkeeping
+                   (ssl->fragLenStored). */
+                ssl->err = SSL_ALERT_DECODE_ERROR;
+                psTraceErrr("Truncated DTLS handshake message\n");
+                return MATRIXSSL_ERROR;
+            }
+#endif /* USE_DTLS */
             /* Support for fragmented handshake messages - non-DTLS */
             if (ssl->fragMessage == NULL)
             {
